@@ -52,6 +52,12 @@ M['c11_m10_printer_code_class_attr'] = ('C11', 'detect', 'TokenPrinter accumulat
              "        TokenPrinter._buffer = ['']\n        self.indent = 0\n"),
     (TOKENS, "class TokenPrinter(object):\n", "class TokenPrinter(object):\n    _buffer = ['']\n\n    @property\n    def _code(self):\n        return TokenPrinter._buffer[0]\n\n    @_code.setter\n    def _code(self, value):\n        TokenPrinter._buffer[0] = value\n\n"),
 ])
+M['c11_m11_cache_by_source_only'] = ('C11', 'detect', 'result cache keyed by the source text only: a later call with other options gets the earlier result', [
+    (INIT, "def minify(\n    source,\n    filename=None,\n    remove_annotations=RemoveAnnotationsOptions(),", "_RESULTS = {}\n\n\ndef minify(source, *args, **kwargs):\n    key = source if isinstance(source, (str, bytes)) else None\n    if key in _RESULTS:\n        return _RESULTS[key]\n    result = _minify(source, *args, **kwargs)\n    if key is not None and len(_RESULTS) < 64:\n        _RESULTS[key] = result\n    return result\n\n\ndef _minify(\n    source,\n    filename=None,\n    remove_annotations=RemoveAnnotationsOptions(),"),
+])
+M['c11_b5_cache_by_source_and_options'] = ('C11', 'quiet', 'benign: result cache keyed by source text and the repr of every option value', [
+    (INIT, "def minify(\n    source,\n    filename=None,\n    remove_annotations=RemoveAnnotationsOptions(),", "_RESULTS = {}\n\n\ndef minify(source, *args, **kwargs):\n    key = (source, repr(args), repr(sorted((k, repr(v)) for k, v in kwargs.items()))) if isinstance(source, (str, bytes)) else None\n    if key in _RESULTS:\n        return _RESULTS[key]\n    result = _minify(source, *args, **kwargs)\n    if key is not None and len(_RESULTS) < 64:\n        _RESULTS[key] = result\n    return result\n\n\ndef _minify(\n    source,\n    filename=None,\n    remove_annotations=RemoveAnnotationsOptions(),"),
+])
 M['c11_b1_lru_cache_names'] = ('C11', 'quiet', 'benign: builtins/keyword reserved list cached across calls', [
     ('src/python_minifier/rename/name_generator.py', "    reserved = keyword.kwlist + dir(builtins)\n", "    reserved = _reserved()\n"),
     ('src/python_minifier/rename/name_generator.py', "def name_filter():", "_RESERVED = []\n\n\ndef _reserved():\n    if not _RESERVED:\n        _RESERVED.extend(keyword.kwlist + dir(builtins))\n    return _RESERVED\n\n\ndef name_filter():"),
